@@ -685,6 +685,32 @@ func (r *Run) sortedAfter(acc ssa.Value, l *mapLoop) (bool, string) {
 				dom = true
 			}
 		}
+		// a phi takes the value at the end of the predecessor it comes from: the value is used
+		// "there", and that place may lie behind the sort although the join itself does not
+		if phi, isPhi := u.(*ssa.Phi); isPhi && !dom {
+			all := true
+			for i, e := range phi.Edges {
+				if e != acc && unwrap(e) != acc {
+					if ld, ok := e.(*ssa.UnOp); !ok || ld.X != acc {
+						continue
+					}
+				}
+				p := phi.Block().Preds[i]
+				after := false
+				for _, s := range sorts {
+					if s.Block() == p || s.Block().Dominates(p) {
+						after = true
+					}
+				}
+				if !after {
+					all = false
+				}
+			}
+			dom = all
+		}
+		if bo, isCmp := u.(*ssa.BinOp); isCmp && !dom && (isNilConst(bo.X) || isNilConst(bo.Y)) {
+			dom = true // `names == nil`: whether it has been built yet, not what is in it
+		}
 		if !dom {
 			return false, "the slice built in map-iteration order is used at " + r.P.pos(u.Pos()) + " before it is sorted"
 		}
@@ -1793,7 +1819,6 @@ func sortSkippedOnlyWhenTrivial(sortCall ssa.CallInstruction, list ssa.Value) bo
 	}
 	return false
 }
-
 
 // expandHelperKinds: a call of a module helper that the loop's table entry does not know is
 // replaced by what the helper does itself — its own calls (of functions that are not pure) and
